@@ -38,6 +38,12 @@ def build(cfg, seed):
         else:
             kw["s"] = 0.3 * vf * vu
         sv = [sig_v[i] * vf * vu / u.day**i for i in range(pt_)]
+        if cfg.get("e_fixed0"):
+            # circular orbits only: the eccentricity is pinned to 0 (the documented way: a Deterministic constant); omega still
+            # shifts the phase of the curve
+            import pytensor.tensor as ptt
+
+            kw["pars"] = {"e": xu.with_unit(pm.Deterministic("e", ptt.constant(0.0)), u.one)}
         prior = tj.JokerPrior.default(P_min=(1.5 * u.day).to(Pu), P_max=(900 * u.day).to(Pu), sigma_K0=25.0 * vf * vu, P0=365.25 * u.day,
                                       sigma_v=sv if pt_ > 1 else sv[0], poly_trend=pt_, v0_offsets=offs, model=model, **kw)
     n = 4 + no
@@ -70,7 +76,7 @@ def build(cfg, seed):
             idx = np.arange(n)[k::S]
             labels[idx] = k
             data.append(tj.RVData(Time(t[idx], format="mjd", scale="tcb"), y[idx] * u.km / u.s, sig[idx] * ef * err_unit))
-    dec = dict(sig_v=sig_v[:pt_], off_sig=off_sig[:no], sigma_K0=25.0, P0=365.25, vf=vf, of=of, Pf=(1 * u.day).to_value(Pu), jitter=cfg["jitter"])
+    dec = dict(e_fixed0=bool(cfg.get("e_fixed0")), sig_v=sig_v[:pt_], off_sig=off_sig[:no], sigma_K0=25.0, P0=365.25, vf=vf, of=of, Pf=(1 * u.day).to_value(Pu), jitter=cfg["jitter"])
     return model, prior, data, dict(t=t, y=y, sig=sig, labels=labels, t_ref=t_ref_val), dec
 
 
@@ -78,7 +84,7 @@ def ref_lnprior(dec, th, x, pt_, no):
     import scipy.stats as st
 
     P, e, om, M0, s = th
-    lp = -np.log(P) + st.beta(*KIP).logpdf(e)
+    lp = -np.log(P) + (0.0 if dec.get("e_fixed0") else st.beta(*KIP).logpdf(e))
     if dec["jitter"] == "sampled":
         # declared: LogNormal(ln(0.5), 0.7) in km/s (the unit factor shifts ln s by a constant)
         lp += st.lognorm(0.7, scale=0.5).logpdf(s)
@@ -106,6 +112,8 @@ def point_for(model, dec, th, x, pt_, no):
         pnt[f"v{i}"] = np.array(x[1 + no + i] * vf)
     if dec["jitter"] == "sampled":
         pnt["s_log__"] = np.array(np.log(s * vf))
+    if dec.get("e_fixed0"):
+        del pnt["e_logodds__"]
     names = {v.name for v in model.value_vars}
     assert names == set(pnt), (names, set(pnt))
     return pnt
@@ -122,7 +130,14 @@ def check_config(cfg, seed, part):
     # samples handed to setup_mcmc: several rows -> the median-period row must be chosen
     Ps = np.array([7.0, 3.3, 41.0, 12.5, 5.0])
     nrows = cfg.get("n_init", 5)
-    rows = tj.JokerSamples(poly_trend=pt_, n_offsets=no, t_ref=None)
+    # "rows_tref": the samples handed over carry an epoch of their own (from another run / file / a slice of the data); the model
+    # is the sampler's model for THIS data set, i.e. relative to the data's reference epoch
+    rows_tref = None
+    if cfg.get("rows_tref"):
+        from astropy.time import Time as _T
+
+        rows_tref = _T(dd["t_ref"] - 4.21, format="mjd", scale="tcb")
+    rows = tj.JokerSamples(poly_trend=pt_, n_offsets=no, t_ref=rows_tref)
     rows["P"] = Ps[:nrows] * u.day
     rows["e"] = np.linspace(0.1, 0.5, nrows)
     rows["omega"] = (np.linspace(0.3, 5.0, nrows) * u.rad).to(u.deg)
@@ -265,6 +280,8 @@ def check_config(cfg, seed, part):
         return
     thetas = [(3.3, 0.1, 1.3, 2.1, 0.3), (41.7, 0.6, 4.0, 5.5, 0.3), (365.25, 0.3, 0.4, 0.7, 0.3), (2.1, 0.85, 6.0, 3.0, 0.3),
               (1.6, 0.96, 2.0, 1.0, 0.3)]  # last: the K-prior variance cap binds only through the eccentricity factor
+    if dec.get("e_fixed0"):
+        thetas = [(t[0], 0.0) + t[2:] for t in thetas]
     if dec["jitter"] == "sampled":
         thetas = [t[:4] + (s,) for t, s in zip(thetas, (0.2, 1.1, 0.05, 0.6, 0.4))]
     xs = [np.array([5.0, 1.0] + [0.5, -0.7][:no] + [0.02, -0.001][: pt_ - 1]), np.array([-12.0, -3.0] + [-1.5, 2.0][:no] + [-0.05, 0.002][: pt_ - 1]),
@@ -339,6 +356,10 @@ def configs(quick):
         out.append(dict(poly_trend=pt_, n_offsets=no, jitter=jit, units=un, n_init=5 if (pt_ + no) % 2 else 1))
     for pt_, no, jit in ((1, 1, "constant"), (2, 2, "sampled"), (3, 1, "constant")):
         out.append(dict(poly_trend=pt_, n_offsets=no, jitter=jit, units="off_ms", n_init=5 if pt_ == 2 else 1))
+    for pt_, no, jit in ((1, 0, "constant"), (2, 0, "sampled"), (2, 1, "constant"), (3, 0, "constant")):
+        out.append(dict(poly_trend=pt_, n_offsets=no, jitter=jit, units="default", n_init=1 if pt_ == 1 else 5, rows_tref=True))
+    for pt_, no, jit in ((1, 0, "constant"), (2, 1, "sampled")):
+        out.append(dict(poly_trend=pt_, n_offsets=no, jitter=jit, units="default", n_init=1, e_fixed0=True))
     for pt_, no, jit in ((1, 0, "constant"), (2, 1, "sampled"), (3, 0, "constant"), (2, 2, "constant")):
         out.append(dict(poly_trend=pt_, n_offsets=no, jitter=jit, units="default", n_init=5, logprobs=True))
         out.append(dict(poly_trend=pt_, n_offsets=no, jitter=jit, units="prior_ms" if no else "default", n_init=5, hook=True))
